@@ -28,6 +28,7 @@ INJECT = [
 # test -> (crate, properties it stands in for, functions)
 TESTS = {
     "standin_ps_signature_verify": ("zkchannels-crypto", ["C07", "C08", "C03", "C18"], ["ps.Signature::verify", "ps.Signature::new"]),
+    "standin_keygen": ("zkchannels-crypto", ["C19", "C07", "C08", "C01"], ["ps.KeyPair::new", "ps.SecretKey::new", "ps.PublicKey::from_secret_key"]),
     "standin_ps_publickey_consume": ("zkchannels-crypto", ["C12", "C01", "C02", "C06"], ["ps.PublicKey::consume"]),
     "standin_pedersen_commitment": ("zkchannels-crypto", ["C09", "C10", "C11", "C05"], ["pedersen.Commitment::new", "pedersen.Commitment::verify_opening"]),
     "standin_cproof_verify": ("zkchannels-crypto", ["C11", "C10", "C01", "C02", "C08"], ["cproof.CommitmentProof::verify_knowledge_of_opening", "cproof.CommitmentProofBuilder::*"]),
